@@ -55,4 +55,11 @@ def q8Delta1Ok (plus : Bool) (a : Nat) : Bool :=
   match q8Delta1 (UInt8.ofNat a) plus with
   | .ok d => sval32 d == sgn plus * v64 a * 64
   | .error _ => false
+
+/-- `to_posit` on an ARBITRARY Q8E0 state `s` (32-bit two's-complement word; value `sval32 s / 4096`; the most negative word is
+NaR): the model returns normally the single posit-rule rounding of that value -/
+def q8ToPositOk (s : Nat) : Bool :=
+  match crate.quire8.convert.Q8E0.to_posit (UInt32.ofNat s).toInt32 with
+  | .ok p => Sweep.bits8 p == (if s == 2147483648 then 128 else Spec.round Spec.p8 (mkRat (sval32 (UInt32.ofNat s)) 4096))
+  | .error _ => false
 end SweepG
